@@ -4,6 +4,7 @@ GEN: seeded stylesheet ASTs (tools/xslgen.py): template rules with modes/priorit
      if/choose, for-each and apply-templates with sort and with-param, call-template, copy, copy-of - nested to depth 3.
 RUN: harness/xslt.cpp; the result tree is recorded from the FormatterListener events, before any serializer.
 TV : Trace_C01.tla: tree = XSLTSem!Transform(stylesheet, document)."""
+import re
 import os, random, json, subprocess
 from xml.sax.saxutils import escape
 import vlib, xdm, xpgen, tlaparse, xslgen
@@ -200,6 +201,70 @@ def fmt_family(res, wd, quick, rng):
     return len(events), len(events) - st["dropped"] - len(rejects)
 
 
+TRACE_NS = os.path.join(ROOT, "spec/trace/Trace_C01ns.tla")
+
+
+def nsnodes_family(res, wd, quick, rng):
+    """the NAMESPACE NODES of the result tree (7.1.1 literal result elements, 7.5 xsl:copy, 11.3 xsl:copy-of): the namespace generator
+    and recorder of C14 (nests of lre / element / attribute / copy / copy-of with declarations, exclusions, aliases, attribute sets),
+    judged by ResultTree!NsNodeFaults: every namespace node the Recommendation puts on a result element is in scope on it, with
+    its prefix, in the recorded result tree and in the re-parsed output"""
+    from props import c14
+    nwd = os.path.join(wd, "ns"); os.makedirs(nwd)
+    progs = c14.systematic()
+    progs = progs[rng.randrange(6)::6] if quick else progs
+    for k in range(700 if quick else 12000):
+        progs.append(c14.Gen(rng, depth=3 if k % 3 else 2).stylesheet())
+    cases, metas = [], []
+    for k, (ss, src) in enumerate(progs):
+        cdir = os.path.join(nwd, "case%d" % k); os.makedirs(cdir)
+        open(os.path.join(cdir, "main.xsl"), "w").write(c14.Render(ss, src).stylesheet())
+        open(os.path.join(cdir, "in.xml"), "w").write(c14.src_xml(src))
+        cases.append({"id": k, "dir": cdir}); metas.append((ss, src))
+    events = c14.run_cases(res, cases, metas, nwd)
+    rejects, st = vlib.tlc_validate_sharded(TRACE_NS, events, tag="c01ns", stateless=True, timeout=3000)
+    known = {k["key"]: k for k in vlib.known_findings(PROP)}
+    tri = {}
+    if rejects:
+        verdicts, _ = vlib.tlc_validate_sharded(c14.TRACE_IMPL, [dict(events[rj["line"]], mode="triage") for rj in rejects], tag="c01nstriage", stateless=True, timeout=3000)
+        tri = {v["line"]: v["msg"] for v in verdicts}
+    for k, rj in enumerate(rejects):
+        ev = events[rj["line"]]
+        cdir = cases[ev["sample"]]["dir"]
+        m = re.match(r"KNOWN (\{.*?\}) ", tri.get(k, ""))
+        keys = classify_ns(ev, rj["msg"], bool(m) and '"staleExcludedPrefix"' in m.group(1))
+        if keys and all(k in known for k in keys):
+            for k in keys:
+                res.known(known[k])
+            continue
+        res.violation("namespace nodes: %s" % rj["msg"][:500],
+                      [dict(ev, family="nsnodes", xsl=open(os.path.join(cdir, "main.xsl")).read(), xml=open(os.path.join(cdir, "in.xml")).read())])
+    res.notes["namespace_node_cases"] = len(events)
+    res.notes["namespace_node_not_judged"] = st["dropped"]
+    return len(events), len(events) - st["dropped"] - len(rejects)
+
+
+def classify_ns(ev, msg, stale):
+    """semantic keys of the known deviations behind a rejected namespace-node case; None unless EVERY fault is explained by one.
+    stale: the execution is, tree for tree, what the transcribed algorithm (NsFixupImpl) does on its staleExcludedPrefix path"""
+    faults = re.findall(r'<<"namespace-node-missing", "([^"]*)", "([^"]*)", "([^"]*)", "([^"]*)", <<([0-9, ]*)>>>>', msg)
+    if not faults:
+        return None
+    keys = set()
+    for kind, local, pfx, uri, path in faults:
+        node, forest = None, ev["raw"]
+        for i in [int(t) for t in path.split(",") if t.strip()]:
+            node = forest[i - 1]; forest = node["c"]
+        own = [a for a in node["a"] if (a["p"] == "xmlns" and a["l"] == pfx) or (pfx == "" and a["p"] == "" and a["l"] == "xmlns")]
+        if pfx and own and own[-1]["v"] != uri and any(a["p"] == pfx for a in node["a"]):
+            keys.add("nsNodeShadowedByAttributePrefix")      # the element re-declares the prefix for one of its attributes
+        elif stale:
+            keys.add("nsNodeStaleExcludedPrefix")            # C14 staleExcludedPrefix seen through the namespace nodes
+        else:
+            return None
+    return sorted(keys)
+
+
 def run(res, tier, seed):
     rng = random.Random(seed)
     quick = tier == "quick"
@@ -279,7 +344,8 @@ def run(res, tier, seed):
                           [dict(ev, xsl=all_xsl(cdir), xml=open(os.path.join(cdir, "in.xml")).read(), flatdoc=flats[ev["doc"] - 1], flataux=[flats[a - 1] for a in ev["aux"]])])
     navt, navt_ok = avt_family(res, wd, quick)
     nfmt, nfmt_ok = fmt_family(res, wd, quick, rng)
-    navt, navt_ok = navt + nfmt, navt_ok + nfmt_ok
+    nns, nns_ok = nsnodes_family(res, wd, quick, rng)
+    navt, navt_ok = navt + nfmt + nns, navt_ok + nfmt_ok + nns_ok
     res.notes["dropped_unjudged"] = st["dropped"]
     rejected = {rj["line"] for rj in rejects}
     res.cov["traces_validated_against_impl"] = len(events) - len(rejects) - st["dropped"] + navt_ok
@@ -299,11 +365,11 @@ def run(res, tier, seed):
                        "(import tree of four modules, rules with overlapping patterns/modes/priorities, xsl:apply-imports, a named template defined in several modules, xsl:include'd runs), every 10th from the attribute-set family (sets merged by import precedence, sets using sets, use-attribute-sets on literal elements / xsl:element / "
                        "xsl:copy incl. copies of the root, text and attribute nodes), every 10th from the multi-document family (document(): identity of loaded "
                        "documents, keys / id() / xsl:number / sorting / template application inside them, strip-space applied to them); non-trivial = at least 5 different instruction kinds in the stylesheet and a non-trivial result tree; distinct by (stylesheet, document). "
-                       "Cases whose definition value involves a number outside the model or a dynamic error are not judged (counted in dropped_unjudged)")
+                       "Besides: the AVT family, the format-number family and the namespace-node family (see notes). Cases whose definition value involves a number outside the model or a dynamic error are not judged (counted in dropped_unjudged)")
     for ev in events[:2]:
         cdir = cases[ev["sample"]]["dir"]
         res.sample({"xsl": all_xsl(cdir), "doc": ev["doc"], "tree": ev["tree"]})
-    res.assumptions += ["XSLTSem has no namespaces in result names (C14), no xsl:number value= (C17), document() with one string argument only, no format-number, output escaping control; global variables, keys and space declarations only in the principal module",
+    res.assumptions += ["XSLTSem has no namespaces in result names: requested expanded names are C14's, the namespace NODES of the result are judged by the namespace-node family against ResultTree.tla; xsl:number value= is C17's; document() with one string argument only; format-number only in its own family; keys and space declarations only in the principal module",
                         "the result tree is compared as a canonical tree: adjacent text merged, attributes as a set, xmlns attributes ignored"]
 
 
